@@ -16,7 +16,7 @@ declare -A MAP=(
  [C12-mutA]="C12 C06" [C12-mutB]="C12 C11"
  [C13-mutA]="C13 C11" [C13-mutB]="C13 C04"
  [C14-mutA]="C14" [C14-mutB]="C14"
- [C15-mutA]="C09" [C15-mutB]="C09"
+ [C15-mutA]="C15 C09" [C15-mutB]="C15 C09"
  [C16-mutA]="C16" [C16-mutB]="C16 C01"
 )
 for seed in $(ls seeded); do
